@@ -37,6 +37,11 @@ fn generate(src: &Path, out: &Path, mode: &str) -> Result<BTreeMap<String, Strin
 
 /// keys of `export interface Name { ... }` (mode none) / `export const NameSchema = z.object({ ... })` (zod)
 fn object_keys(types_ts: &str, name: &str, zod: bool) -> Option<Vec<String>> {
+    Some(raw_object_keys(types_ts, name, zod)?.into_iter().map(|k| k.trim_matches('"').trim_matches('\'').to_string()).collect())
+}
+
+/// the keys as printed (quotes kept)
+fn raw_object_keys(types_ts: &str, name: &str, zod: bool) -> Option<Vec<String>> {
     let head = if zod { format!("export const {}Schema = z.object({{", name) } else { format!("export interface {} {{", name) };
     let start = types_ts.find(&head)? + head.len();
     let rest = &types_ts[start..];
@@ -63,7 +68,11 @@ fn object_keys(types_ts: &str, name: &str, zod: bool) -> Option<Vec<String>> {
     for e in entries {
         let l = e.trim();
         if l.is_empty() || l.starts_with("//") || l.starts_with('[') { continue; }
-        if let Some(c) = l.find(':') { keys.push(l[..c].trim().trim_end_matches('?').trim_matches('"').trim_matches('\'').to_string()); }
+        // the key ends at the first `:` outside quotes
+        let mut q: Option<char> = None;
+        let mut cut = None;
+        for (i, ch) in l.char_indices() { match (q, ch) { (Some(x), c) if c == x => q = None, (Some(_), _) => {}, (None, '"') | (None, '\'') => q = Some(ch), (None, ':') => { cut = Some(i); break; } _ => {} } }
+        if let Some(c) = cut { keys.push(l[..c].trim().trim_end_matches('?').to_string()); }
     }
     Some(keys)
 }
@@ -80,6 +89,120 @@ fn enum_literals(types_ts: &str, name: &str, zod: bool) -> Option<Vec<String>> {
         match (&mut cur, ch) { (None, '"') => cur = Some(String::new()), (Some(s), '"') => { v.push(s.clone()); cur = None; } (Some(s), c) => s.push(c), _ => {} }
     }
     Some(v)
+}
+
+
+/// C01 (lexical part): strings and comments skipped; brackets balanced; no Rust surface syntax; `types.` followed by an identifier
+fn lexical_wellformed(files: &BTreeMap<String, String>) -> Result<String, String> {
+    for (f, text) in files {
+        if !f.ends_with(".ts") { continue; }
+        let cs: Vec<char> = text.chars().collect();
+        let mut stack: Vec<(char, usize)> = Vec::new();
+        let mut i = 0;
+        let mut line = 1;
+        while i < cs.len() {
+            let c = cs[i];
+            if c == '\n' { line += 1; }
+            if c == '/' && cs.get(i + 1) == Some(&'/') { while i < cs.len() && cs[i] != '\n' { i += 1; } continue; }
+            if c == '/' && cs.get(i + 1) == Some(&'*') { i += 2; while i + 1 < cs.len() && !(cs[i] == '*' && cs[i + 1] == '/') { if cs[i] == '\n' { line += 1; } i += 1; } i += 2; continue; }
+            if c == '"' || c == '\'' || c == '`' {
+                let q = c; i += 1;
+                while i < cs.len() && cs[i] != q { if cs[i] == '\\' { i += 1; } if i < cs.len() && cs[i] == '\n' && q != '`' { return Err(format!("{}:{} unterminated string literal", f, line)); } i += 1; }
+                i += 1; continue;
+            }
+            match c {
+                '(' | '[' | '{' => stack.push((c, line)),
+                ')' | ']' | '}' => { let want = match c { ')' => '(', ']' => '[', _ => '{' }; match stack.pop() { Some((o, _)) if o == want => {}, other => return Err(format!("{}:{} unbalanced `{}` (open: {:?})", f, line, c, other)) } }
+                ':' if cs.get(i + 1) == Some(&':') => return Err(format!("{}:{} Rust path syntax `::` leaked", f, line)),
+                '.' if i >= 5 && cs[i - 5..i].iter().collect::<String>() == "types" => {
+                    let nx = cs.get(i + 1).copied().unwrap_or(' ');
+                    if !(nx.is_alphabetic() || nx == '_' || nx == '$') { return Err(format!("{}:{} `types.` is followed by `{}`, not an identifier", f, line, nx)); }
+                }
+                _ => {}
+            }
+            i += 1;
+        }
+        if let Some((o, l)) = stack.pop() { return Err(format!("{}:{} `{}` never closed", f, l, o)); }
+    }
+    Ok("ok".into())
+}
+
+/// names exported by a module text (`export interface|type|const|function|enum|class Name`)
+fn exports_of(text: &str) -> BTreeSet<String> {
+    let mut out = BTreeSet::new();
+    for l in text.lines() {
+        let l = l.trim_start();
+        if let Some(rest) = l.strip_prefix("export ") {
+            let mut it = rest.split(|c: char| !(c.is_alphanumeric() || c == '_' || c == '$')).filter(|w| !w.is_empty());
+            let kw = it.next().unwrap_or("");
+            let kw2 = if kw == "async" || kw == "declare" || kw == "default" { it.next().unwrap_or("") } else { kw };
+            if ["interface", "type", "const", "function", "enum", "class", "let", "var"].contains(&kw2) { if let Some(n) = it.next() { out.insert(n.to_string()); } }
+        }
+    }
+    out
+}
+
+/// C02: in commands.ts / events.ts every `types.X` names something types.ts exports, and no project type is
+/// referenced without the qualifier (identifiers inside strings and comments are not references)
+fn references_resolve(files: &BTreeMap<String, String>, project_types: &[&str]) -> Result<String, String> {
+    let exp = exports_of(files.get("types.ts").map(|s| s.as_str()).unwrap_or(""));
+    let mut n = 0;
+    for f in ["commands.ts", "events.ts"] {
+        let text = match files.get(f) { Some(t) => t, None => continue };
+        let cs: Vec<char> = text.chars().collect();
+        let mut i = 0;
+        while i < cs.len() {
+            let c = cs[i];
+            if c == '/' && cs.get(i + 1) == Some(&'/') { while i < cs.len() && cs[i] != '\n' { i += 1; } continue; }
+            if c == '/' && cs.get(i + 1) == Some(&'*') { i += 2; while i + 1 < cs.len() && !(cs[i] == '*' && cs[i + 1] == '/') { i += 1; } i += 2; continue; }
+            if c == '"' || c == '\'' || c == '`' { let q = c; i += 1; while i < cs.len() && cs[i] != q { if cs[i] == '\\' { i += 1; } i += 1; } i += 1; continue; }
+            if c.is_alphabetic() || c == '_' || c == '$' {
+                let st = i;
+                while i < cs.len() && (cs[i].is_alphanumeric() || cs[i] == '_' || cs[i] == '$') { i += 1; }
+                let id: String = cs[st..i].iter().collect();
+                let qualified = st >= 6 && cs[st - 6..st].iter().collect::<String>() == "types." && !(st >= 7 && (cs[st - 7].is_alphanumeric() || cs[st - 7] == '_' || cs[st - 7] == '.'));
+                let member = st >= 1 && cs[st - 1] == '.';
+                if qualified {
+                    n += 1;
+                    if !exp.contains(&id) { return Err(format!("{}: `types.{}` is referenced but types.ts exports no `{}`", f, id, id)); }
+                } else if !member && project_types.contains(&id.as_str()) {
+                    return Err(format!("{}: project type `{}` is referenced without the `types.` qualifier (it is not declared or imported in this module)", f, id));
+                }
+                continue;
+            }
+            i += 1;
+        }
+    }
+    // no module declares the same exported name twice
+    for (f, text) in files {
+        if !f.ends_with(".ts") { continue; }
+        let mut seen = BTreeSet::new();
+        for l in text.lines() {
+            let e = exports_of(l);
+            for n in e { if l.trim_start().starts_with("export ") && !l.contains(" from ") && !seen.insert(n.clone()) {
+                // an interface and a const of the same name never occur in the templates; `export type X` + `export const XSchema` differ
+                return Err(format!("{}: `{}` is exported twice", f, n));
+            } }
+        }
+    }
+    Ok(format!("{} qualified references", n))
+}
+
+/// the schema expression of `key` inside `export const <name>Schema = z.object({ ... })`
+fn zod_field(types_ts: &str, name: &str, key: &str) -> Option<String> {
+    let head = format!("export const {}Schema = z.object({{", name);
+    let start = types_ts.find(&head)? + head.len();
+    for l in types_ts[start..].lines() {
+        let t = l.trim();
+        if t.starts_with("})") { break; }
+        if let Some(rest) = t.strip_prefix(&format!("{}:", key)) { return Some(rest.trim().trim_end_matches(',').to_string()); }
+    }
+    None
+}
+
+/// Tauri's command macro: lowerCamelCase of the Rust parameter name (words = non-empty pieces between underscores)
+fn lower_camel(name: &str) -> String {
+    words_of_field(name).iter().enumerate().map(|(i, w)| if i == 0 { w.clone() } else { cap(w) }).collect()
 }
 
 // ---- serde's renaming rules, transcribed from the serde documentation (oracle)
@@ -125,6 +248,9 @@ fn main() {
             let generic = if inj.contains("<R>") { "<R: Runtime>" } else { "" };
             src.push_str(&format!("#[tauri::command]\npub fn cmd_{}{}(first_arg: String, {}, second_arg: Option<u32>, on_event: Channel<u32>) -> u32 {{ 0 }}\n", i, generic, inj));
         }
+        // parameter-name shapes: digits after underscores, doubled / leading underscores, one-letter words, non-ASCII
+        let shapes = ["pos_2d", "size_3d_px", "on_2nd_pass", "line_1_start", "v_2", "_lead", "dou__ble", "x", "http_2_server", "a_b_c", "über_wert", "trailing_", "user_id"];
+        src.push_str(&format!("#[tauri::command]\npub fn shapes({}) -> u32 {{ 0 }}\n", shapes.iter().map(|n| format!("{}: u32", n)).collect::<Vec<_>>().join(", ")));
         let dir = root.join("inject/src");
         write_files(&dir, &[("lib.rs".to_string(), src)]);
         for (i, inj) in injected.iter().enumerate() {
@@ -155,6 +281,16 @@ fn main() {
                 }
                 Ok("ok".into())
             });
+            rep.case("invoke_keys_follow_tauri_camel_case", &format!("fn shapes({}) mode={}", shapes.join(", "), mode), &|| {
+                let files = generate(&dir, &root.join(format!("inject/out_{}", mode)), mode)?;
+                let t = files.get("types.ts").ok_or("no types.ts")?;
+                let got = object_keys(t, "ShapesParams", mode == "zod").ok_or(format!("ShapesParams not declared in types.ts ({})", mode))?;
+                let want: Vec<String> = shapes.iter().map(|n| lower_camel(n)).collect();
+                if got != want { return Err(format!("keys {:?}, Tauri's command macro expects {:?}", got, want)); }
+                let c = files.get("commands.ts").ok_or("no commands.ts")?;
+                if !c.contains("'shapes'") && !c.contains("\"shapes\"") { return Err("commands.ts does not invoke 'shapes'".into()); }
+                Ok(format!("{:?}", got))
+            });
         }
     }
 
@@ -175,6 +311,13 @@ fn main() {
             ("rename_mentions_skip", "#[serde(rename = \"skip_count\")]", Some("skip_count")),
             ("alias_mentions_rename", "#[serde(alias = \"rename_all\")]", Some("alias_mentions_rename")),
             ("rename_and_default", "#[serde(default, rename = \"rd\")]", Some("rd")),
+            ("rename_then_default_attr", "#[serde(rename = \"uid\")]\n    #[serde(default)]", Some("uid")),
+            ("rename_then_alias_attr", "#[serde(rename = \"nick\")]\n    #[serde(alias = \"nickname\")]", Some("nick")),
+            ("default_attr_then_rename", "#[serde(default)]\n    #[serde(rename = \"late\")]", Some("late")),
+            ("rename_then_doc_and_allow", "#[serde(rename = \"documented\")]\n    /// a doc comment\n    #[allow(dead_code)]", Some("documented")),
+            ("rename_upper", "#[serde(rename = \"HTTPCode\")]", Some("HTTPCode")),
+            ("rename_digit", "#[serde(rename = \"2fa\")]", Some("2fa")),
+            ("rename_space", "#[serde(rename = \"display name\")]", Some("display name")),
         ];
         let conventions = ["", "lowercase", "UPPERCASE", "PascalCase", "camelCase", "snake_case", "SCREAMING_SNAKE_CASE", "kebab-case", "SCREAMING-KEBAB-CASE"];
         let derives = ["#[derive(Serialize, Deserialize)]", "#[derive(Debug, Clone, serde::Serialize, serde::Deserialize)]", "#[derive(serde::Serialize)]\n#[derive(Debug)]", "#[derive(Deserialize, Clone)]"];
@@ -206,6 +349,10 @@ fn main() {
             for v in variants { ebody.push_str(&format!("    {},\n", v)); lits.push(if conv.is_empty() { v.to_string() } else { apply_rule(conv, v, true) }); }
             ebody.push_str("    #[serde(rename = \"explicit\")]\n    Renamed,\n");
             lits.push("explicit".to_string());
+            ebody.push_str("    #[serde(rename = \"HTTP\")]\n    Proto,\n");
+            lits.push("HTTP".to_string());
+            ebody.push_str("    #[serde(rename = \"on\")]\n    #[serde(alias = \"enabled\")]\n    Active,\n");
+            lits.push("on".to_string());
             src.push_str(&format!("#[allow(non_camel_case_types)]\n{}\n{}pub enum {} {{\n{}}}\n", derives[(ci + 1) % derives.len()], ra, ename, ebody));
             enums.push((ename.clone(), lits));
             cmd_params.push(format!("r{}: {}, k{}: {}", ci, sname, ci, ename));
@@ -239,6 +386,43 @@ fn main() {
                 let t = files.get("types.ts").ok_or("no types.ts")?;
                 if t.contains("NotSerde") { Err("NotSerde (no serde derive, unreachable) appears in types.ts".into()) } else { Ok("ok".into()) }
             });
+            rep.case("generated_files_are_lexically_wellformed", &format!("project=serde mode={}", mode), &|| lexical_wellformed(files.as_ref().map_err(|e| e.clone())?));
+            for (sname, _) in &structs {
+                rep.case("keys_are_legal_property_names", &format!("struct {} mode={}", sname, mode), &|| {
+                    let files = files.as_ref().map_err(|e| e.clone())?;
+                    let t = files.get("types.ts").ok_or("no types.ts")?;
+                    let raw = raw_object_keys(t, sname, mode == "zod").ok_or(format!("{} is not declared", sname))?;
+                    for k in &raw {
+                        let ident = k.chars().next().map_or(false, |c| c.is_alphabetic() || c == '_' || c == '$') && k.chars().all(|c| c.is_alphanumeric() || c == '_' || c == '$');
+                        let quoted = k.len() >= 2 && ((k.starts_with('"') && k.ends_with('"')) || (k.starts_with('\'') && k.ends_with('\'')));
+                        if !ident && !quoted { return Err(format!("key `{}` of {} is neither an identifier nor a quoted string", k, sname)); }
+                    }
+                    Ok(format!("{:?}", raw))
+                });
+            }
+            let tys: Vec<&str> = structs.iter().map(|(n, _)| n.as_str()).chain(enums.iter().map(|(n, _)| n.as_str())).collect();
+            rep.case("type_references_resolve", &format!("project=serde mode={}", mode), &|| references_resolve(files.as_ref().map_err(|e| e.clone())?, &tys));
+        }
+        // C10: the z.object / z.enum of an item has the keys / members of its plain declaration
+        let none = generate(&dir, &root.join("serde/out_none"), "none");
+        let zod = generate(&dir, &root.join("serde/out_zod"), "zod");
+        for (sname, _) in &structs {
+            rep.case("both_modes_same_names_and_keys", &format!("serde struct {}", sname), &|| {
+                let n = none.as_ref().map_err(|e| e.clone())?.get("types.ts").ok_or("no types.ts (none)")?;
+                let z = zod.as_ref().map_err(|e| e.clone())?.get("types.ts").ok_or("no types.ts (zod)")?;
+                let kn = object_keys(n, sname, false).ok_or(format!("plain mode does not declare {} as an object type", sname))?;
+                let kz = object_keys(z, sname, true).ok_or(format!("zod mode does not declare {}Schema as z.object", sname))?;
+                if kn == kz { Ok(format!("{:?}", kn)) } else { Err(format!("keys differ: plain {:?}, zod {:?}", kn, kz)) }
+            });
+        }
+        for (ename, _) in &enums {
+            rep.case("both_modes_same_names_and_keys", &format!("serde enum {}", ename), &|| {
+                let n = none.as_ref().map_err(|e| e.clone())?.get("types.ts").ok_or("no types.ts (none)")?;
+                let z = zod.as_ref().map_err(|e| e.clone())?.get("types.ts").ok_or("no types.ts (zod)")?;
+                let kn = enum_literals(n, ename, false).ok_or(format!("plain mode does not declare {} as a literal union", ename))?;
+                let kz = enum_literals(z, ename, true).ok_or(format!("zod mode does not declare {}Schema as z.enum", ename))?;
+                if kn == kz { Ok(format!("{:?}", kn)) } else { Err(format!("members differ: plain {:?}, zod {:?}", kn, kz)) }
+            });
         }
     }
 
@@ -258,12 +442,28 @@ fn main() {
             ("a-method-recv", "self_like.handle().emit(\"a-method-recv\", 1u32).ok();"),
             ("a-webview", "webview.emit(\"a-webview\", 1u32).ok();"),
             ("a-ref-payload", "app.emit(\"a-ref-payload\", &flag).ok();"),
+            // receivers named app / window / webview whose declared type is not one of Tauri's concrete handle types
+            ("g-generic", ""), ("g-arc", ""), ("g-alias", ""), ("g-untyped-let", ""), ("g-impl", ""),
+            // payload variables whose declared types carry lifetimes / references inside generics
+            ("p-lifetime-opt", ""), ("p-lifetime-vec", ""), ("p-vec-struct", ""),
+            // one name emitted at several sites: same payload type, different payload types
+            ("r-repeat", "app.emit(\"r-repeat\", 1u32).ok(); window.emit(\"r-repeat\", 2u32).ok();"),
+            ("r-mixed", "app.emit(\"r-mixed\", 1u32).ok(); app.emit(\"r-mixed\", \"text\").ok();"),
         ];
+        let extra_fns = "pub fn notify<R: tauri::Runtime, E: Emitter<R>>(app: &E) { app.emit(\"g-generic\", 1u32).ok(); }\n\
+            pub fn arc(window: std::sync::Arc<tauri::WebviewWindow>) { window.emit(\"g-arc\", 1u32).ok(); }\n\
+            type Handle = tauri::Webview<tauri::Wry>;\npub fn alias(webview: Handle) { webview.emit(\"g-alias\", 1u32).ok(); }\n\
+            pub fn untyped(ctx: &Ctx) { let app = ctx.handle(); app.emit(\"g-untyped-let\", 1u32).ok(); }\n\
+            pub fn imp(app: &impl Emitter) { app.emit(\"g-impl\", 1u32).ok(); }\n\
+            #[derive(Serialize, Deserialize, Clone)]\npub struct Player { pub id: u32 }\n\
+            pub fn announce<'a>(app: &tauri::AppHandle, winner: Option<&'a Player>) { app.emit(\"p-lifetime-opt\", winner).ok(); }\n\
+            pub fn levels(app: &tauri::AppHandle) { let levels: Vec<&'static str> = vec![]; app.emit(\"p-lifetime-vec\", &levels).ok(); }\n\
+            pub fn roster(app: &tauri::AppHandle, players: Vec<Player>) { app.emit(\"p-vec-struct\", players).ok(); }\n";
         let body: String = sites.iter().map(|(_, s)| format!("    {}\n", s)).collect();
         let src = format!("{}use tauri::Emitter;\npub struct Holder {{ pub app: tauri::AppHandle }}\nimpl Holder {{ fn handle(&self) -> tauri::AppHandle {{ todo!() }} }}\n\
             #[tauri::command]\npub async fn run(app: tauri::AppHandle, window: tauri::Window, webview: tauri::WebviewWindow, self_like: Holder, flag: bool) -> Result<(), String> {{\n{}}}\n\
             // a non-Tauri bus whose emit_to takes two arguments, and calls with too few arguments: must be ignored, never panic\n\
-            pub fn other(bus: Bus, app: tauri::AppHandle) {{ bus.sink().emit_to(\"main\", \"b-two-args\"); app.emit_to(\"only-target\"); app.emit(\"b-one-arg\"); app.emit(); }}\n", HDR, body);
+            pub fn other(bus: Bus, app: tauri::AppHandle) {{ bus.sink().emit_to(\"main\", \"b-two-args\"); app.emit_to(\"only-target\"); app.emit(\"b-one-arg\"); app.emit(); }}\n{}", HDR, body, extra_fns);
         let dir = root.join("emits/src");
         write_files(&dir, &[("lib.rs".to_string(), src)]);
         rep.case("emit_placements_and_combinations", "project=emits", &|| {
@@ -274,6 +474,20 @@ fn main() {
             if !missing.is_empty() { return Err(format!("emit sites without a discovered event: {:?} (discovered: {:?})", missing, got)); }
             Ok(format!("{:?}", got))
         });
+        for mode in ["none", "zod"] {
+            let files = generate(&dir, &root.join(format!("emits/out_{}", mode)), mode);
+            rep.case("generated_files_are_lexically_wellformed", &format!("project=emits mode={}", mode), &|| lexical_wellformed(files.as_ref().map_err(|e| e.clone())?));
+            rep.case("type_references_resolve", &format!("project=emits mode={}", mode), &|| references_resolve(files.as_ref().map_err(|e| e.clone())?, &["Player", "Holder"]));
+            rep.case("one_listener_per_event", &format!("project=emits mode={}", mode), &|| {
+                let files = files.as_ref().map_err(|e| e.clone())?;
+                let ev = files.get("events.ts").ok_or("no events.ts although the project emits events")?;
+                for (n, _) in &sites {
+                    let k = ev.matches(&format!("('{}',", n)).count() + ev.matches(&format!("(\"{}\",", n)).count();
+                    if k != 1 { return Err(format!("events.ts has {} listeners subscribed to '{}', expected exactly one", k, n)); }
+                }
+                Ok("ok".into())
+            });
+        }
     }
 
     // ============================================================ C13: reordering / moving items changes at most the order of declarations
@@ -399,40 +613,64 @@ fn main() {
         }
         for (mname, res) in [("none", &none), ("zod", &zod)] {
             rep.case("generated_files_are_lexically_wellformed", &format!("project=modes mode={}", mname), &|| {
-                let files = res.as_ref().map_err(|e| e.clone())?;
-                for (f, text) in files {
-                    if !f.ends_with(".ts") { continue; }
-                    // strings and comments skipped; brackets balanced; no Rust surface syntax; `types.` followed by an identifier
-                    let cs: Vec<char> = text.chars().collect();
-                    let mut stack: Vec<(char, usize)> = Vec::new();
-                    let mut i = 0;
-                    let mut line = 1;
-                    while i < cs.len() {
-                        let c = cs[i];
-                        if c == '\n' { line += 1; }
-                        if c == '/' && cs.get(i + 1) == Some(&'/') { while i < cs.len() && cs[i] != '\n' { i += 1; } continue; }
-                        if c == '/' && cs.get(i + 1) == Some(&'*') { i += 2; while i + 1 < cs.len() && !(cs[i] == '*' && cs[i + 1] == '/') { if cs[i] == '\n' { line += 1; } i += 1; } i += 2; continue; }
-                        if c == '"' || c == '\'' || c == '`' {
-                            let q = c; i += 1;
-                            while i < cs.len() && cs[i] != q { if cs[i] == '\\' { i += 1; } if cs[i] == '\n' && q != '`' { return Err(format!("{}:{} unterminated string literal", f, line)); } i += 1; }
-                            i += 1; continue;
-                        }
-                        match c {
-                            '(' | '[' | '{' => stack.push((c, line)),
-                            ')' | ']' | '}' => { let want = match c { ')' => '(', ']' => '[', _ => '{' }; match stack.pop() { Some((o, _)) if o == want => {}, other => return Err(format!("{}:{} unbalanced `{}` (open: {:?})", f, line, c, other)) } }
-                            ':' if cs.get(i + 1) == Some(&':') => return Err(format!("{}:{} Rust path syntax `::` leaked", f, line)),
-                            '.' if i >= 5 && cs[i - 5..i].iter().collect::<String>() == "types" => {
-                                let nx = cs.get(i + 1).copied().unwrap_or(' ');
-                                if !(nx.is_alphabetic() || nx == '_' || nx == '$') { return Err(format!("{}:{} `types.` is followed by `{}`, not an identifier", f, line, nx)); }
-                            }
-                            _ => {}
-                        }
-                        i += 1;
-                    }
-                    if let Some((o, l)) = stack.pop() { return Err(format!("{}:{} `{}` never closed", f, l, o)); }
-                }
-                Ok("ok".into())
+                lexical_wellformed(res.as_ref().map_err(|e| e.clone())?)
             });
+            rep.case("type_references_resolve", &format!("project=modes mode={}", mname), &|| {
+                references_resolve(res.as_ref().map_err(|e| e.clone())?, &["Ping", "AllSkipped", "Item", "Level"])
+            });
+        }
+    }
+    // ============================================================ C11 / C15: validator attribute spellings, end to end in zod mode
+    {
+        // (field, attribute lines, rust type, email?, url?, fragments that must / must not occur)
+        let fields: Vec<(&str, &str, &str, bool, bool, Vec<&str>, Vec<&str>)> = vec![
+            ("f_plain", "", "String", false, false, vec![], vec![".min(", ".max("]),
+            ("f_email", "#[validate(email)]", "String", true, false, vec![], vec![]),
+            ("f_url", "#[validate(url)]", "String", false, true, vec![], vec![]),
+            ("f_both", "#[validate(email, url)]", "String", true, true, vec![], vec![]),
+            ("f_email_msg", "#[validate(email(message = \"bad mail\"))]", "String", true, false, vec![], vec![]),
+            ("f_url_code", "#[validate(url(code = \"bad_url\"))]", "String", false, true, vec![], vec![]),
+            ("f_url_msg_len", "#[validate(url(message = \"bad link\"), length(max = 2048))]", "String", false, true, vec![".max(2048"], vec![]),
+            ("f_email_len", "#[validate(email, length(max = 64))]", "String", true, false, vec![".max(64"], vec![]),
+            ("f_len_then_email", "#[validate(length(min = 3), email)]", "String", true, false, vec![".min(3"], vec![]),
+            ("f_two_attrs", "#[validate(email)]\n    #[validate(length(min = 5))]", "String", true, false, vec![".min(5"], vec![]),
+            ("f_msg_mentions", "#[validate(length(min = 1, message = \"not an email or url\"))]", "String", false, false, vec![".min(1", "not an email or url"], vec![]),
+            ("f_custom_str", "#[validate(custom(function = \"check_email_domain\"))]", "String", false, false, vec![], vec![]),
+            ("f_range_neg", "#[validate(range(min = -10, max = -1.5))]", "f64", false, false, vec![".min(-10", ".max(-1.5"], vec![]),
+            ("f_range_swapped", "#[validate(range(min = 10, max = 1))]", "i32", false, false, vec![".min(10", ".max(1"], vec![]),
+            ("f_len_vec", "#[validate(length(min = 1, max = 3))]", "Vec<String>", false, false, vec![".min(1", ".max(3"], vec![]),
+        ];
+        let mut body = String::new();
+        for (f, attr, ty, ..) in &fields { if !attr.is_empty() { body.push_str(&format!("    {}\n", attr)); } body.push_str(&format!("    pub {}: {},\n", f, ty)); }
+        let src = format!("{}use validator::Validate;\n#[derive(Serialize, Deserialize, Validate)]\npub struct Form {{\n{}}}\n#[tauri::command]\npub fn submit(form: Form) -> u32 {{ 0 }}\n", HDR, body);
+        let dir = root.join("validators/src");
+        write_files(&dir, &[("lib.rs".to_string(), src)]);
+        let files = generate(&dir, &root.join("validators/out_zod"), "zod");
+        for (f, attr, _ty, email, url, must, must_not) in &fields {
+            rep.case("declared_validators_reach_the_schema", &format!("{} pub {}", attr.replace('\n', " "), f), &|| {
+                let files = files.as_ref().map_err(|e| e.clone())?;
+                let t = files.get("types.ts").ok_or("no types.ts")?;
+                let sch = zod_field(t, "Form", f).ok_or(format!("FormSchema has no key {}", f))?;
+                if sch.contains(".email(") != *email { return Err(format!("email declared: {}, schema `{}`", email, sch)); }
+                if sch.contains(".url(") != *url { return Err(format!("url declared: {}, schema `{}`", url, sch)); }
+                for m in must { if !sch.contains(m) { return Err(format!("schema `{}` lacks `{}`", sch, m)); } }
+                for m in must_not { if sch.contains(m) { return Err(format!("schema `{}` has `{}` although no such constraint is declared", sch, m)); } }
+                Ok(sch)
+            });
+        }
+        // C15: bound tokens that parse as f64 but are not ordinary numbers, swapped bounds, empty lists — never a panic
+        let odd = ["range(min = NaN, max = 100)", "range(min = 1, max = NaN)", "range(min = NaN, max = NaN)", "range(min = inf, max = 1)", "range(min = -inf, max = inf)", "range(min = infinity)",
+            "range(min = 1e400, max = 2)", "range(min = 10, max = 1)", "length(min = 10, max = 1)", "length(min = 18446744073709551616)", "length(min = -1)", "range()", "length()", "email()", "range(min = , max = )",
+            "length(equal = 3)", "range(exclusive_min = 0.0)", "custom(function = f, message = \"x\")", "length(min = 1, max = 2), range(min = NaN, max = 0)"];
+        for (i, o) in odd.iter().enumerate() {
+            let src = format!("{}#[derive(Serialize, Deserialize)]\npub struct Odd {{\n    #[validate({})]\n    pub n: f64,\n    #[validate({})]\n    pub s: String,\n    #[validate({})]\n    pub v: Vec<u8>,\n}}\n#[tauri::command]\npub fn odd(o: Odd) -> u32 {{ 0 }}\n", HDR, o, o, o);
+            let dir = root.join(format!("odd{}/src", i));
+            write_files(&dir, &[("lib.rs".to_string(), src)]);
+            for mode in ["none", "zod"] {
+                rep.case("odd_validator_arguments_do_not_panic", &format!("#[validate({})] mode={}", o, mode), &|| {
+                    match generate(&dir, &root.join(format!("odd{}/out_{}", i, mode)), mode) { Ok(f) => Ok(format!("{} files", f.len())), Err(e) => Ok(format!("Err: {}", e)) }
+                });
+            }
         }
     }
     let _ = fs::remove_dir_all(&root);
